@@ -169,10 +169,153 @@ fn random_str(ch: &mut Choices, case: &mut Case) -> Result<(), String> {
     Ok(())
 }
 
+/// Deterministic expansion of (length, universe, seed) into a vector: the three parameters are
+/// drawn from the choice sequence, so the case stays a pure function of it and shrinks with it.
+fn expand(len: usize, universe: u32, seed: u64) -> Vec<u32> {
+    let mut s = seed;
+    (0..len)
+        .map(|_| {
+            s = s.wrapping_add(0x9E37_79B9_7F4A_7C15);
+            let mut z = s;
+            z = (z ^ (z >> 30)).wrapping_mul(0xBF58_476D_1CE4_E5B9);
+            z = (z ^ (z >> 27)).wrapping_mul(0x94D0_49BB_1331_11EB);
+            ((z ^ (z >> 31)) % u64::from(universe)) as u32 * 2 + 1
+        })
+        .collect()
+}
+
+fn gen_len(ch: &mut Choices) -> usize {
+    // brackets around powers of two, where size-dependent strategies would switch
+    const STEPS: [i64; 9] = [0, 40, 250, 520, 1030, 1500, 2060, 2600, 3000];
+    let i = ch.draw(8) as usize;
+    ch.int(STEPS[i], STEPS[i + 1]) as usize
+}
+
+fn first_diff(got: &[u32], exp: &[u32]) -> String {
+    let i = got.iter().zip(exp).position(|(g, e)| g != e).unwrap_or(got.len().min(exp.len()));
+    let lo = i.saturating_sub(2);
+    format!(
+        "lengths {} vs {}; first difference at index {i}: got {:?}, expected {:?}",
+        got.len(),
+        exp.len(),
+        &got[lo..(i + 3).min(got.len())],
+        &exp[lo..(i + 3).min(exp.len())]
+    )
+}
+
+/// Large operands (up to 3000 elements each) over universes from dense to sparse, with the
+/// second operand related to the first in the ways that matter to a merge: sharing its greatest
+/// or least element, contained in it, containing it, disjoint above/below.
+fn random_large(ch: &mut Choices, case: &mut Case) -> Result<(), String> {
+    let la = gen_len(ch);
+    let lb = gen_len(ch);
+    let universe = [64u32, 1000, 5000, 40_000, 1_000_000][ch.draw(5) as usize];
+    let (sa, sb) = (u64::from(ch.raw()), u64::from(ch.raw()) + 70_000);
+    let a = expand(la, universe, sa);
+    let mut b = expand(lb, universe, sb);
+    let relation = ch.draw(8);
+    match relation {
+        1 => b.extend(a.iter().max().copied()),
+        2 => b.extend(a.iter().min().copied()),
+        3 => b = a.iter().copied().step_by(2 + ch.draw(5) as usize).collect(),
+        4 => b.extend(a.iter().copied()),
+        5 => b.iter_mut().for_each(|x| *x += 2 * universe + 2),
+        6 => {
+            // same greatest element on both sides, everything else independent
+            let top = 2 * universe + 1;
+            b.push(top);
+            let mut a2 = a.clone();
+            a2.push(top);
+            return large_check(&a2, &b, la, lb, universe, relation, ch, case);
+        }
+        _ => {}
+    }
+    large_check(&a, &b, la, lb, universe, relation, ch, case)
+}
+
+#[allow(clippy::too_many_arguments)]
+fn large_check(a: &[u32], b: &[u32], la: usize, lb: usize, universe: u32, relation: u32, ch: &mut Choices, case: &mut Case) -> Result<(), String> {
+    case.key = format!("|a|={la} |b|={lb} universe={universe} relation={relation} (a[..4]={:?} b[..4]={:?})", &a[..a.len().min(4)], &b[..b.len().min(4)]);
+    let sa: BTreeSet<u32> = a.iter().copied().collect();
+    let sb: BTreeSet<u32> = b.iter().copied().collect();
+    let ua: UniqueSortedVec<u32> = a.to_vec().into();
+    let ub: UniqueSortedVec<u32> = b.to_vec().into();
+    let exp_a: Vec<u32> = sa.iter().copied().collect();
+    let exp_b: Vec<u32> = sb.iter().copied().collect();
+    if ua.as_slice() != exp_a.as_slice() {
+        return Err(format!("From<Vec> of {} elements: {}", a.len(), first_diff(ua.as_slice(), &exp_a)));
+    }
+    if ub.as_slice() != exp_b.as_slice() {
+        return Err(format!("From<Vec> of {} elements: {}", b.len(), first_diff(ub.as_slice(), &exp_b)));
+    }
+    let exp_u: Vec<u32> = sa.union(&sb).copied().collect();
+    let u1 = ua.clone().union(ub.clone());
+    if u1.as_slice() != exp_u.as_slice() {
+        return Err(format!("a.union(b) with {} and {} distinct elements: {}", exp_a.len(), exp_b.len(), first_diff(u1.as_slice(), &exp_u)));
+    }
+    let u2 = ub.clone().union(ua.clone());
+    if u2.as_slice() != exp_u.as_slice() {
+        return Err(format!("b.union(a) with {} and {} distinct elements: {}", exp_b.len(), exp_a.len(), first_diff(u2.as_slice(), &exp_u)));
+    }
+    let u3 = u1.clone().union(ub.clone());
+    if u3.as_slice() != exp_u.as_slice() {
+        return Err(format!("(a∪b)∪b: {}", first_diff(u3.as_slice(), &exp_u)));
+    }
+    // queries: around sampled members, the ends and beyond
+    let mut queries: Vec<u32> = vec![0, 1, 2, 2 * universe + 1, 2 * universe + 2, u32::MAX];
+    for _ in 0..24 {
+        if !exp_u.is_empty() {
+            let x = exp_u[ch.draw(65536) as usize * exp_u.len() >> 16];
+            queries.extend([x.saturating_sub(1), x, x + 1]);
+        }
+    }
+    for q in &queries {
+        if ua.contains(q) != sa.contains(q) {
+            return Err(format!("contains({q}) on {} elements = {}", exp_a.len(), ua.contains(q)));
+        }
+        if ua.find_first_following(q) != sa.range(q..).next() {
+            return Err(format!("find_first_following({q}) on {} elements = {:?}, expected {:?}", exp_a.len(), ua.find_first_following(q), sa.range(q..).next()));
+        }
+        if u1.contains(q) != (sa.contains(q) || sb.contains(q)) {
+            return Err(format!("contains({q}) on the union = {}", u1.contains(q)));
+        }
+        let expu = exp_u.iter().find(|x| *x >= q);
+        if u1.find_first_following(q) != expu {
+            return Err(format!("find_first_following({q}) on the union = {:?}, expected {expu:?}", u1.find_first_following(q)));
+        }
+    }
+    case.units = queries.len() as u64;
+    let interleave = !exp_a.is_empty() && !exp_b.is_empty() && !(exp_a.last() < exp_b.first() || exp_b.last() < exp_a.first());
+    case.nontrivial = interleave && exp_a.len() + exp_b.len() > 64;
+    for limit in [512usize, 1024, 2048, 4096] {
+        if exp_a.len() + exp_b.len() > limit {
+            case.label(match limit {
+                512 => "more_than_512_elements",
+                1024 => "more_than_1024_elements",
+                2048 => "more_than_2048_elements",
+                _ => "more_than_4096_elements",
+            });
+        }
+    }
+    if exp_a.last() == exp_b.last() && !exp_a.is_empty() {
+        case.label("same_greatest_element");
+    }
+    Ok(())
+}
+
 pub fn property() -> Property {
     Property {
         id: "C20",
         subs: vec![
+            SubCheck {
+                name: "random_large",
+                rule: "generated pairs of vectors of up to 3000 elements each (lengths bracketed around powers of two) over universes of 64 to 10^6 values, the second operand independent, sharing the greatest/least element, contained, containing or disjoint; From<Vec>, union both ways, re-union vs BTreeSet and ~80 queries around members and ends; non-trivial = interleaving operands with more than 64 distinct elements in total",
+                f: random_large,
+                text_f: None,
+                cases_quick: 3_000,
+                cases_thorough: 60_000,
+                max_choices: 40,
+            },
             SubCheck {
                 name: "random_u8",
                 rule: "generated pairs of vectors of length <= 200 over alphabets of 4/11/51/256 values, all queries; non-trivial = interleaving operands with more than 12 elements in total",
